@@ -142,9 +142,9 @@ impl Engine for C03 {
             .map(|(i, n)| Phase::new(n, json!({"kind":"frag","frag": i, "thorough": false})))
             .collect();
         v.push(Phase::new("fragments F3 F4 F6 F7 F10 x 2 base documents", json!({"kind":"bases"})));
-        v.push(Phase::new("kind-agnostic expressions of <=2 constructors x 27 contexts", json!({"kind":"agnostic","k":2})));
+        v.push(Phase::new("kind-agnostic expressions of <=2 constructors x 28 contexts", json!({"kind":"agnostic","k":2})));
         v.push(Phase::new("annotation matrix", json!({"kind":"annotations"})));
-        v.push(Phase::new("kind-agnostic expressions of 3 constructors x 27 contexts", json!({"kind":"agnostic","k":3})));
+        v.push(Phase::new("kind-agnostic expressions of 3 constructors x 28 contexts", json!({"kind":"agnostic","k":3})));
         if tier == Tier::Thorough {
             for i in frags::HAS_NEXT_BOUND {
                 v.push(Phase::new(
@@ -152,7 +152,7 @@ impl Engine for C03 {
                     json!({"kind":"frag","frag": i, "thorough": true}),
                 ));
             }
-            v.push(Phase::new("kind-agnostic expressions of 4 constructors x 27 contexts", json!({"kind":"agnostic","k":4})));
+            v.push(Phase::new("kind-agnostic expressions of 4 constructors x 28 contexts", json!({"kind":"agnostic","k":4})));
         }
         v
     }
@@ -221,7 +221,7 @@ impl Engine for C03 {
         judge(&texts, case["base"].as_str().unwrap_or(""))
     }
     fn rule(&self) -> String {
-        "accepted programs of the kind-directed fragments F1-F10, of the kind-agnostic space (<= k constructors x 27 contexts) and of the annotation matrix, plus fragments x base documents; oracle: independent validator on the YAML value (every $ref resolves; path template variables == required path parameters per operation; response keys are default / 100-599 / 1XX-5XX; operationIds unique unless written by the program) and typed round trip (parses back to an equal document and re-serialises byte-identically). Non-trivial = a document was emitted; distinct = distinct YAML texts".into()
+        "accepted programs of the kind-directed fragments F1-F10, of the kind-agnostic space (<= k constructors x 28 contexts) and of the annotation matrix, plus fragments x base documents; oracle: independent validator on the YAML value (every $ref resolves; path template variables == required path parameters per operation; response keys are default / 100-599 / 1XX-5XX; operationIds unique unless written by the program) and typed round trip (parses back to an equal document and re-serialises byte-identically). Non-trivial = a document was emitted; distinct = distinct YAML texts".into()
     }
     fn assumptions(&self) -> Vec<String> {
         vec![
